@@ -4,6 +4,7 @@ package main
 import (
 	"bytes"
 	"fmt"
+	"github.com/Dash-Industry-Forum/livesim2/cmd/livesim2/app"
 	"math/rand"
 	"os"
 	"path/filepath"
@@ -319,6 +320,7 @@ func run(c *lib.Ctx) error {
 		}
 	}
 	runAssets("b", ls, assets, nil)
+	nBundled := len(ins)
 	// generated layouts (N = 1..7; uniform, alternating, irregular; timescales 1000..90000 incl. 1001-based;
 	// $Number$ and $Time$ VoD manifests; stpp and thumbnails), plus the borderline ones of the findings stream
 	var layouts []lib.GenAsset
@@ -341,6 +343,40 @@ func run(c *lib.Ctx) error {
 	}
 	defer cleanup()
 	runAssets("g", gls, gAssets, layouts)
+	// the same requests on an instance that was restarted on representation metadata files written by an
+	// earlier start (the loop timeline must not depend on how the asset tables were obtained)
+	if root, cleanupRD, err := lib.ScratchDir("c01-repdata"); err == nil {
+		defer cleanupRD()
+		_, errW := lib.NewLivesim(lib.TestVodRoot, func(cfg *app.ServerConfig) { cfg.RepDataRoot, cfg.WriteRepData = root, true })
+		lsR, errR := lib.NewLivesim(lib.TestVodRoot, func(cfg *app.ServerConfig) { cfg.RepDataRoot, cfg.WriteRepData = root, false })
+		if errW == nil && errR == nil {
+			var pick []int
+			for i := 0; i < nBundled; i++ {
+				if obs[i].Status == 200 && ins[i].Cfg.AtoMS <= 0 && (repOf[i].Kind != "video" || i%5 == 0) {
+					pick = append(pick, i)
+				}
+			}
+			rng.Shuffle(len(pick), func(a, b int) { pick[a], pick[b] = pick[b], pick[a] })
+			nR := 800
+			if c.Thorough() {
+				nR = 8000
+			}
+			if len(pick) > nR {
+				pick = pick[:nR]
+			}
+			for _, i := range pick {
+				o := lib.ObserveSeg(lsR.GetRaw(ins[i].URL), repOf[i])
+				identifyStpp(repOf[i], &o)
+				if o.Status != obs[i].Status || o.Tfdt != obs[i].Tfdt || o.Seq != obs[i].Seq || o.Payload != obs[i].Payload || o.SrcIdx != obs[i].SrcIdx {
+					c.Fail(fmt.Sprint(i), "restart:differs", fmt.Sprintf("%s on an instance restarted on metadata files: status %d tfdt %d seq %d src %d payload %.12s; on the scanning instance: status %d tfdt %d seq %d src %d payload %.12s",
+						ins[i].URL, o.Status, o.Tfdt, o.Seq, o.SrcIdx, o.Payload, obs[i].Status, obs[i].Tfdt, obs[i].Seq, obs[i].SrcIdx, obs[i].Payload), ins[i])
+				}
+			}
+			c.Res.Distribution["restart-repeat"] = len(pick)
+		} else {
+			c.Res.Notes = append(c.Res.Notes, fmt.Sprint("restart instance not started: ", errW, errR))
+		}
+	}
 	// the same requests again, many at a time: what a segment carries must not depend on which other requests
 	// are being served (buffers handed back too early, state shared between requests)
 	{
